@@ -373,11 +373,11 @@ func checkBreakGuards(c *Ctx, rule string) {
 	if shouldPause != nil {
 		uses := false
 		for _, ci := range Calls(shouldPause) {
-			if calleeName(ci.Common()) == "TableBlindState.IsBreaking" {
+			if calleeName(ci.Common()) == "TableBlindState.IsBreaking" && ofLevel(p.CallSym(ci)) {
 				uses = true
 			}
 		}
-		c.Check(uses, rule, "pause-predicate-uses-break", p.Pos(shouldPause.Pos()), "ShouldPause consults IsBreaking", "the pause predicate no longer consults the break predicate")
+		c.Check(uses, rule, "pause-predicate-uses-break", p.Pos(shouldPause.Pos()), "ShouldPause consults IsBreaking", "the pause predicate no longer asks the table's live blind level whether it is a break")
 	} else {
 		c.Bad(rule, "pause-predicate-uses-break", "-", "pause predicate not found")
 	}
